@@ -660,6 +660,17 @@ pub fn bombs(ev: Ev) -> Vec<String> {
             }
         }
     }
+    // every one-argument function on signed zeros, the placeholder and tiny / huge values
+    for (sp, f) in spellings_for(ev) {
+        if f.arity() == Arity::One {
+            for a in ["(-0)", "(-0.0)", "0", "@", "(-@)", "(0*-1)", "(1/0)", "(0/0)", "(-1/0)"] {
+                v.push(format!("{}({})", sp, a));
+            }
+        }
+    }
+    for a in ["@!", "(-@)!", "@°", "@rad", "-@", "@²", "@^@", "@%@", "@/@", "@-@", "0*@", "@*0"] {
+        v.push(a.to_string());
+    }
     // long literals, long superscripts
     for n in [19usize, 20, 29, 30, 40, 100, 250] {
         v.push("9".repeat(n));
